@@ -89,7 +89,7 @@ def closure_captures(F, fn, du, closure_path):
     return []
 
 
-def slice_adt_fields(F, fn, op, adt_suffix, depth=0, _seen=None, max_nodes=600):
+def slice_adt_fields(F, fn, op, adt_suffix, depth=0, _seen=None, max_nodes=600, calls_out=None):
     """Fields of an ADT (matched by path suffix) that are read anywhere in the interprocedural backward slice of `op`:
     through assignments, aggregates, arithmetic and *all* arguments of calls; into the return value of workspace callees;
     and, when the slice reaches a parameter, into the corresponding argument at every call site (both two levels deep)."""
@@ -121,7 +121,7 @@ def slice_adt_fields(F, fn, op, adt_suffix, depth=0, _seen=None, max_nodes=600):
                         if k in _seen:
                             continue
                         _seen.add(k)
-                        out |= slice_adt_fields(F, g, t["args"][local - 1], adt_suffix, depth + 1, _seen)
+                        out |= slice_adt_fields(F, g, t["args"][local - 1], adt_suffix, depth + 1, _seen, calls_out=calls_out)
         if local == 1 and fn.get("owner") and fn.get("def_kind") == "Closure" and depth < 4:
             # the environment of a closure: continue with what the enclosing body (the owner function or a closure of it, for a
             # closure nested in a closure) captured into it; a hop through an environment is not a call level
@@ -135,10 +135,12 @@ def slice_adt_fields(F, fn, op, adt_suffix, depth=0, _seen=None, max_nodes=600):
                     for bi, si, s in mir.stmts(own):
                         if s["rv"]["k"] == "agg" and s["rv"].get("closure") == fn["path"]:
                             for o in s["rv"]["ops"]:
-                                out |= slice_adt_fields(F, own, o, adt_suffix, depth, _seen)
+                                out |= slice_adt_fields(F, own, o, adt_suffix, depth, _seen, calls_out=calls_out)
         for d in du.defs.get(local, []) + du.partial.get(local, []):
             if d[0] == "call":
                 t = d[3]
+                if calls_out is not None:
+                    calls_out.add((t.get("callee") or "").split("::")[-1])
                 for a in t["args"]:
                     apl = mir.op_place(a)
                     if apl is not None:
@@ -152,7 +154,7 @@ def slice_adt_fields(F, fn, op, adt_suffix, depth=0, _seen=None, max_nodes=600):
                     _seen.add((r, "ret"))
                     # everything the callee's return value is computed from - including what a function it merely hands on
                     # (`pub fn mint_redeemer_index(..) { redeemer_rank::mint_policy_rank(..) }`) returns
-                    out |= slice_adt_fields(F, h, {"l": 0, "p": []}, adt_suffix, depth + 1, _seen)
+                    out |= slice_adt_fields(F, h, {"l": 0, "p": []}, adt_suffix, depth + 1, _seen, calls_out=calls_out)
             else:
                 rv = d[3]["rv"]
                 pls = []
